@@ -427,11 +427,23 @@ static void replayRun(const Params &p, const std::filesystem::path &dir) {
 	RstObserver robs(rstSim);
 	s.addCallbacks(&robs);
 	size_t fails = 0, checks = 0;
+	// Replay semantics = the interpreter loop the recorder writes into testbench.vhd: `wait for n ps`, then the records act
+	// at that time.  In VHDL a test-bench action at time t precedes the register updates caused by a clock edge at the same t
+	// (they happen one delta cycle later), and the recorder relies on this: records of the BEFORE phase of a tick are written
+	// with the tick's own time.  WaitFor of the reference simulator resumes AFTER the registers of that time, so the replay
+	// process acts half a picosecond early (all events of these runs lie on or just above the picosecond grid): same order
+	// with respect to every clock event as in the VHDL interpreter.  Records at time 0 act at power-on.
 	s.addSimulationProcess([&]() -> SimProcess {
-		uint64_t now = 0;
+		uint64_t now = 0;       // file time (sum of ADV)
+		bool shifted = false;   // process time == now - 1/2 ps
 		for (size_t i = 0; i < recs.size(); i++) {
 			auto &r = recs[i];
-			if (r.kind == "ADV") { co_await WaitFor(Seconds{r.adv, 1'000'000'000'000ull}); now += r.adv; }
+			if (r.kind == "ADV") {
+				if (r.adv == 0) co_await WaitFor(Seconds{0, 1});
+				else if (!shifted) { co_await WaitFor(Seconds{2 * r.adv - 1, 2'000'000'000'000ull}); shifted = true; }
+				else co_await WaitFor(Seconds{r.adv, 1'000'000'000'000ull});
+				now += r.adv;
+			}
 			else if (r.kind == "SET") {
 				bool found = false;
 				for (auto &in : b.ins) if (in.name == r.name) { in.set(vh::fromBits(r.value)); found = true; }
